@@ -78,4 +78,181 @@ theorem findLoop_some (name : String) (id : Nat) (inn : Bool) :
         have : j - i = (j - (i + 1)) + 1 := by omega
         rw [this]; simpa using hg
 
+/-! ### The frame discipline `GenStack`: facts proved by induction on the nesting depth -/
+
+/-- The user function's frame is the last frame, it holds the scope object and has globals `g`. -/
+theorem GenStack.split {name : String} {id g d : Nat} {gen : List Frame} {u : Frame}
+    (h : GenStack name id g d gen u) :
+    ∃ pre, gen = pre ++ [u] ∧ u.holds name id = true ∧ u.globals = g ∧ d ≤ pre.length ∧
+      (d = 0 → pre = []) := by
+  induction h with
+  | user u hu hg => exact ⟨[], rfl, hu, hg, Nat.le_refl _, fun _ => rfl⟩
+  | body d b ops rest u hb hg hops _ ih =>
+    obtain ⟨pre, hpre, hu, hgu, hd, _⟩ := ih
+    refine ⟨b :: (ops ++ pre), by simp [hpre], hu, hgu, ?_, fun h => by omega⟩
+    simp only [List.length_cons, List.length_append]
+    omega
+
+/-- The innermost generated frame (the one containing the call) holds the scope object. -/
+theorem GenStack.head {name : String} {id g d : Nat} {gen : List Frame} {u : Frame}
+    (h : GenStack name id g d gen u) :
+    ∃ c t, gen = c :: t ∧ c.holds name id = true ∧ c.globals = g ∧ (d = 0 → c = u ∧ t = []) := by
+  cases h with
+  | user u hu hg => exact ⟨u, [], rfl, hu, hg, fun _ => ⟨rfl, rfl⟩⟩
+  | body d b ops rest u hb hg hops hrest => exact ⟨b, ops ++ rest, rfl, hb, hg, fun h => by omega⟩
+
+/-- Every frame of the activation that holds the scope object runs in the generated module's globals. -/
+theorem GenStack.globals {name : String} {id g d : Nat} {gen : List Frame} {u : Frame}
+    (h : GenStack name id g d gen u) : ∀ f ∈ gen, f.holds name id = true → f.globals = g := by
+  induction h with
+  | user u hu hg => intro f hf _; simp at hf; rw [hf]; exact hg
+  | body d b ops rest u hb hg hops _ ih =>
+    intro f hf hh
+    simp only [List.mem_cons, List.mem_append] at hf
+    rcases hf with rfl | hf | hf
+    · exact hg
+    · rw [hops f hf] at hh; cases hh
+    · exact ih f hf hh
+
+/-- Exactly `d + 1` frames of the activation hold the scope object: the `d` generated bodies and
+the user function. -/
+theorem GenStack.holders_length {name : String} {id g d : Nat} {gen : List Frame} {u : Frame}
+    (h : GenStack name id g d gen u) : (holders name id gen).length = d + 1 := by
+  induction h with
+  | user u hu hg => simp [holders, hu]
+  | body d b ops rest u hb hg hops _ ih =>
+    have hops' : ops.filter (fun f => f.holds name id) = [] := by
+      apply List.filter_eq_nil_iff.mpr
+      intro f hf; simp [hops f hf]
+    simp only [holders, List.filter_cons, hb, if_true, List.filter_append, hops', List.nil_append,
+      List.length_cons] at ih ⊢
+    omega
+
+theorem holders_append (name : String) (id : Nat) (a b : List Frame) :
+    holders name id (a ++ b) = holders name id a ++ holders name id b := by
+  simp [holders]
+
+theorem holders_nil_of_none {name : String} {id : Nat} {l : List Frame}
+    (h : ∀ f ∈ l, f.holds name id = false) : holders name id l = [] := by
+  apply List.filter_eq_nil_iff.mpr
+  intro f hf; simp [h f hf]
+
+/-- Soundness of the checker: a stack whose first holder is at its head and whose holders number
+`n + 1`, all in globals `g`, IS an activation at depth `n` followed by frames that do not hold the
+scope object. -/
+theorem genStack_of_holders (name : String) (id g : Nat) :
+    ∀ (n : Nat) (stack : List Frame) (h : Frame) (t : List Frame), stack = h :: t →
+      h.holds name id = true → (holders name id stack).length = n + 1 →
+      genGlobalsOk name id g stack = true →
+      ∃ gen outer u, stack = gen ++ outer ∧ GenStack name id g n gen u ∧
+        (∀ f ∈ outer, f.holds name id = false) := by
+  intro n
+  induction n with
+  | zero =>
+    intro stack h t hst hh hlen hgl
+    subst hst
+    have ht : ∀ f ∈ t, f.holds name id = false := by
+      intro f hf
+      cases hfh : f.holds name id with
+      | false => rfl
+      | true =>
+        exfalso
+        have : f ∈ holders name id t := List.mem_filter.mpr ⟨hf, hfh⟩
+        simp only [holders, List.filter_cons, hh, if_true, List.length_cons] at hlen
+        have h0 : (List.filter (fun f => f.holds name id) t).length = 0 := by omega
+        rw [List.length_eq_zero_iff] at h0
+        simp [holders, h0] at this
+    have hg : h.globals = g := by
+      simp only [genGlobalsOk, holders, List.filter_cons, hh, if_true, List.all_cons, Bool.and_eq_true, beq_iff_eq] at hgl
+      exact hgl.1
+    exact ⟨[h], t, h, rfl, .user h hh hg, ht⟩
+  | succ n ih =>
+    intro stack h t hst hh hlen hgl
+    subst hst
+    have hg : h.globals = g := by
+      simp only [genGlobalsOk, holders, List.filter_cons, hh, if_true, List.all_cons, Bool.and_eq_true, beq_iff_eq] at hgl
+      exact hgl.1
+    have hglt : genGlobalsOk name id g t = true := by
+      simp only [genGlobalsOk, holders, List.filter_cons, hh, if_true, List.all_cons, Bool.and_eq_true] at hgl
+      exact hgl.2
+    have hlent : (holders name id t).length = n + 1 := by
+      simp only [holders, List.filter_cons, hh, if_true, List.length_cons] at hlen
+      simp only [holders]; omega
+    -- split t at its first holder
+    have hsplit : ∀ (l : List Frame), (holders name id l).length = n + 1 →
+        ∃ ops h' t', l = ops ++ h' :: t' ∧ (∀ f ∈ ops, f.holds name id = false) ∧ h'.holds name id = true := by
+      intro l
+      induction l with
+      | nil => intro hl; simp [holders] at hl
+      | cons a r ihr =>
+        intro hl
+        cases ha : a.holds name id with
+        | true => exact ⟨[], a, r, rfl, by simp, ha⟩
+        | false =>
+          have : (holders name id r).length = n + 1 := by
+            simpa [holders, List.filter_cons, ha] using hl
+          obtain ⟨ops, h', t', hr, hops, hh'⟩ := ihr this
+          refine ⟨a :: ops, h', t', by simp [hr], ?_, hh'⟩
+          intro f hf
+          simp only [List.mem_cons] at hf
+          rcases hf with rfl | hf
+          · exact ha
+          · exact hops f hf
+    obtain ⟨ops, h', t', ht, hops, hh'⟩ := hsplit t hlent
+    have hlen2 : (holders name id (h' :: t')).length = n + 1 := by
+      rw [ht, holders_append, holders_nil_of_none hops] at hlent
+      simpa using hlent
+    have hgl2 : genGlobalsOk name id g (h' :: t') = true := by
+      simp only [genGlobalsOk] at hglt ⊢
+      rw [ht, holders_append, holders_nil_of_none hops] at hglt
+      simpa using hglt
+    obtain ⟨gen, outer, u, hgo, hgen, hout⟩ := ih (h' :: t') h' t' rfl hh' hlen2 hgl2
+    refine ⟨h :: (ops ++ gen), outer, u, ?_, .body n h ops gen u hh hg hops hgen, hout⟩
+    rw [ht, hgo]; simp
+
+/-- A stack with at least one holder splits at its first holder. -/
+theorem split_first_holder (name : String) (id : Nat) :
+    ∀ (l : List Frame), holders name id l ≠ [] →
+      ∃ lib h t, l = lib ++ h :: t ∧ (∀ f ∈ lib, f.holds name id = false) ∧ h.holds name id = true := by
+  intro l
+  induction l with
+  | nil => intro hl; simp [holders] at hl
+  | cons a r ihr =>
+    intro hl
+    cases ha : a.holds name id with
+    | true => exact ⟨[], a, r, rfl, by simp, ha⟩
+    | false =>
+      have : holders name id r ≠ [] := by simpa [holders, List.filter_cons, ha] using hl
+      obtain ⟨ops, h', t', hr, hops, hh'⟩ := ihr this
+      refine ⟨a :: ops, h', t', by simp [hr], ?_, hh'⟩
+      intro f hf
+      simp only [List.mem_cons] at hf
+      rcases hf with rfl | hf
+      · exact ha
+      · exact hops f hf
+
+/-- Soundness of the recorded-stack checker (`genDepth`, `genGlobalsOk`): whatever real stack passes
+it is `lib ++ gen ++ outer` with `gen` an activation obeying the discipline at the reported depth. -/
+theorem genStack_of_check (name : String) (id g n : Nat) (stack : List Frame)
+    (hd : genDepth name id stack = some n) (hg : genGlobalsOk name id g stack = true) :
+    ∃ lib gen outer u, stack = lib ++ gen ++ outer ∧ GenStack name id g n gen u ∧
+      (∀ f ∈ lib, f.holds name id = false) ∧ (∀ f ∈ outer, f.holds name id = false) := by
+  have hlen : (holders name id stack).length = n + 1 := by
+    unfold genDepth at hd
+    split at hd
+    · cases hd
+    · rename_i m hm; injection hd with hd; omega
+  have hne : holders name id stack ≠ [] := by
+    intro h; rw [h] at hlen; simp at hlen
+  obtain ⟨lib, h, t, hst, hlib, hh⟩ := split_first_holder name id stack hne
+  have hlen2 : (holders name id (h :: t)).length = n + 1 := by
+    rw [hst, holders_append, holders_nil_of_none hlib] at hlen
+    simpa using hlen
+  have hgl2 : genGlobalsOk name id g (h :: t) = true := by
+    simp only [genGlobalsOk] at hg ⊢
+    rw [hst, holders_append, holders_nil_of_none hlib] at hg
+    simpa using hg
+  obtain ⟨gen, outer, u, hgo, hgen, hout⟩ := genStack_of_holders name id g n (h :: t) h t rfl hh hlen2 hgl2
+  exact ⟨lib, gen, outer, u, by rw [hst, hgo, List.append_assoc], hgen, hlib, hout⟩
+
 end Malt.Builtins
